@@ -109,3 +109,10 @@ Theorem C01_frontend_operations_complete : forall maxq l name a data fds regions
   spec_op maxq l name a data fds regions <> None -> existsb (String.eqb name) fe_op_names = true.
 Proof. exact fe_op_names_complete. Qed.
 Print Assumptions C01_frontend_operations_complete.
+
+(* the two proxies: each operation sends its own request code with the caller's message, payload and descriptor
+   (regenerated forwarding table against the specification table) *)
+From VV Require Import Gen.GenArms Spec.FwdSpec Proofs.FwdProofs.
+Theorem C01_proxy_requests : fwd_ops_ok = true.
+Proof. exact fwd_ops_ok_true. Qed.
+Print Assumptions C01_proxy_requests.
